@@ -50,6 +50,7 @@ PROBES = ["waiter_parked_on_thread_lock_during_swap", "two_first_starts_racing",
           "reply_later_than_timeout", "stale_reply_waiting_in_queue", "foreign_reply_seen_by_query",
           "first_start_with_queries_disabled", "no_active_terminal",
           "process_lock_creation_failed", "synchronized_call_raised", "screen_write_step",
+          "screen_input_poll_step",
           "process_start_failed_after_hand_over"]
 COMPONENTS = {
     "real": ["term_image.utils.lock_tty / query_terminal / read_tty / write_tty / get_cell_size",
@@ -127,6 +128,7 @@ def gen_program(ch, depth, budget, mode="getters"):
         elif depth == 0:
             kinds.append((3, "screen"))
             kinds.append((2, "screen_write"))
+            kinds.append((2, "screen_input"))
         if depth < 2 and budget[0] > 0:
             kinds.append((4, "start"))
         kind = ch.weighted("step", kinds)
@@ -241,6 +243,18 @@ def run(ch, ctx, fault=None):
 
         screen = UrwidImageScreen(input=FakeIn(), output=out)
         screen.start()
+
+        def sim_raw_input(self):
+            # urwid's own (unsynchronized) non-blocking read of the terminal's input queue
+            k.yield_point("screen-input")
+            data = bytes(tty.inq)
+            del tty.inq[:]
+            tty.bytes_read += len(data)
+            k.yield_point("screen-input2")
+            return list(data)
+
+        real_raw_input = urwid.raw_display.Screen.get_available_raw_input
+        urwid.raw_display.Screen.get_available_raw_input = sim_raw_input
         out.drain()
         sync_owner = [None]
         draws = [0]
@@ -384,6 +398,14 @@ def run(ch, ctx, fault=None):
                     canvas = top.render((80, 24), focus=True)
                     ctx.probe("screen_redraw_step")
                     screen.draw_screen((80, 24), canvas)
+                elif kind == "screen_input":
+                    # the event loop polls for keyboard input through the screen (stdin is
+                    # the same terminal): a synchronized call like any other, so it never
+                    # sees the reply to somebody else's query
+                    ctx.probe("screen_input_poll_step")
+                    got = screen.get_available_raw_input()
+                    check(not got, "reply_of_another_caller_was_stolen",
+                          {"task": label, "got": bytes(got), "by": "screen input poll"}, "read")
                 elif kind == "screen_write":
                     # another thread writes through the same screen object (a status line, a
                     # bell, clear_images(), ...)
@@ -452,6 +474,7 @@ def run(ch, ctx, fault=None):
             tty.reply_filter = None
             tty.__dict__.pop("input_arrives", None)
             out._deliver = orig_deliver
+            urwid.raw_display.Screen.get_available_raw_input = real_raw_input
             try:
                 # urwid installs process-wide signal handlers at start(); each screen remembers
                 # the previous one, so a screen that is never stopped pins every earlier world
